@@ -125,7 +125,6 @@ structure DState where
   out : List Nat := []
   rbs : List RB := []
   partialRead : Bool := false
-  tarCalls : Nat := 0              -- tar read_header calls made so far in this process
   rbs2 : Option (List RB) := none  -- read-back of the rewritten archive (none: not modelled)
 
 /-- The entry object the reader returned, as a writer sees it when it is handed on unchanged. -/
@@ -147,9 +146,9 @@ def doRewrite (d : DState) (g : Fmt) (bpb : Nat) (bilb : Int) : DState × String
   let (cst, cb) := closeBytes g ws
   let raw := out ++ cb
   let total := raw ++ List.replicate (clientPad raw.length bpb bilb) 0
-  let rr := readArchive false total d.tarCalls
+  let rr := readArchive false total 0
   let hs := if hss.isEmpty then "-" else String.intercalate "," (hss.map Status.str)
-  ({ d with rbs2 := some rr.entries, tarCalls := rr.calls },
+  ({ d with rbs2 := some rr.entries },
    s!"o=ok h={hs} c={cst.str} len={total.length} hash={hex64 (LA.fnv1a total)} fmt={String.ofList (Nat.toDigits 16 rr.fmt)} n={rr.entries.length} end={rr.endSt.str}")
 
 def obsField (obs k : String) : String := (kv (LA.words obs) k).getD "?"
@@ -164,8 +163,8 @@ def doClose (d : DState) (abort : Bool) (obs : String) : DState × String :=
     let (cst, cb) := if abort then (Status.ok, []) else closeBytes f d.ws
     let raw := d.out ++ cb
     let total := if abort then raw else raw ++ List.replicate (clientPad raw.length d.bpb d.bilb) 0
-    let rr := readArchive abort total d.tarCalls
-    let d' := { d with rbs := rr.entries, isOpen := false, partialRead := abort, tarCalls := rr.calls }
+    let rr := readArchive abort total 0
+    let d' := { d with rbs := rr.entries, isOpen := false, partialRead := abort }
     let (len, hash, hex) :=
       if d.filter == "none" then
         (toString total.length, hex64 (LA.fnv1a total), if total.length ≤ 1536 then LA.toHex total else "+")
